@@ -418,11 +418,57 @@ def write_evidence(pid, ev):
 
 
 def replay(path):
+    """Re-run a recorded violation against the CURRENT tree.
+    Kani obligations with a recorded counterexample: the concrete playback test is spliced into the
+    harness module of a fresh scratch copy and executed natively (`cargo kani playback`): exit 1 if it
+    still fails (reproduced), 0 if it passes. Otherwise the obligation is re-verified."""
     rec = json.load(open(path))
     pid = rec["property"]
     log(f"replaying obligation {rec['obligation']} of {pid} on the current tree")
-    if rec.get("concrete_playback_test"):
-        log("recorded failing input (Kani concrete playback test):\n" + rec["concrete_playback_test"])
+    test = rec.get("concrete_playback_test")
+    if test and rec.get("backend") == "kani":
+        log("recorded failing input (Kani concrete playback test):\n" + test)
+        uname = rec["unit"]
+        ucfg = CONFIG["units"][uname]
+        udir = os.path.join(VERIF, ucfg["dir"])
+        scratch = scratch_root()
+        try:
+            ws = os.path.join(scratch, "ws")
+            kinject.copy_workspace(REPO, ws)
+            unit, _ = kinject.inject(udir, ws)
+            mm = re.search(r"fn (kani_concrete_playback_\w+)", test)
+            tname = mm.group(1)
+            hmod = rec["harness"].split("::")[0]
+            placed = False
+            for fe in unit["files"]:
+                if not fe.get("append"):
+                    continue
+                fp = os.path.join(ws, fe["file"])
+                src = open(fp).read()
+                if ("mod " + hmod) in src:
+                    k = src.rstrip().rfind("}")
+                    src = src[:k] + "\n" + test + "\n}\n"
+                    open(fp, "w").write(src)
+                    placed = True
+                    break
+            if not placed:
+                log("could not place the recorded test; falling back to re-verification")
+            else:
+                cmd = ["cargo", "kani", "playback", "-Z", "concrete-playback", "-p", unit["crate"]]
+                if unit.get("features"):
+                    cmd += ["--features", unit["features"]]
+                cmd += ["--", tname]
+                rc, out, to, dt = krun._run_group(cmd, ws, 900, env=krun.kani_env())
+                print(out[-3000:])
+                if to or (rc != 0 and ("panicked" in out or "FAILED" in out)):
+                    print(f"REPRODUCED property={pid} obligation={rec['obligation']} (native execution of the recorded input fails on the current tree)")
+                    return 1
+                if rc == 0:
+                    print(f"NOT-REPRODUCED property={pid} obligation={rec['obligation']} (recorded input passes on the current tree)")
+                    return 0
+                log("native replay did not build; falling back to re-verification")
+        finally:
+            shutil.rmtree(scratch, ignore_errors=True)
     rc = decide(pid, "quick", only_obligation=rec["obligation"])
     return rc
 
@@ -442,4 +488,12 @@ def main():
 
 
 if __name__ == "__main__":
-    main()
+    try:
+        main()
+    except SystemExit:
+        raise
+    except BaseException as e:  # an internal error of the machinery is never a violation
+        import traceback
+        traceback.print_exc()
+        log("internal error in the checker => undecided")
+        sys.exit(2)
